@@ -211,8 +211,11 @@ fn judge(filter: &str, kc: Option<KCfg>, start: u64, seq: &[FEv], fail: &[u64], 
             ClockCmd::Step(d) => {
                 if let Some(k) = kc {
                     let thr = (k.step_threshold_ns as i128) << 32;
-                    // from_seconds(f64) rounding: allow one part in 2^40
-                    if dur_to_bits(*d).unsigned_abs() < (thr - (thr >> 40) - 1) as u128 {
+                    // Duration::from_seconds(f64) goes through seconds in 2^-32 s units (0.233 ns)
+                    // before it scales to nanoseconds and truncates toward zero: a step of exactly
+                    // the threshold arrives up to one such unit short (1 ms -> 999999.931 ns)
+                    let quantum: i128 = 1_000_000_000; // 2^-32 s in 2^-32 ns units
+                    if dur_to_bits(*d).unsigned_abs() < (thr - (thr >> 40) - quantum - 1) as u128 {
                         bounds.push(Violation {
                             signature: format!("{filter}:step-below-threshold"),
                             message: format!("{filter} stepped by {} ns, threshold {} ns in call {i} of {:?}", d.nanos_lossy(), k.step_threshold_ns, seq),
